@@ -48,6 +48,7 @@ func plan(prop, tier string) []Part {
 			{Name: "mixed", N: q(tier, 600, 12000), Chunk: 40, Procs: []int{2, 16, 4, 1}, Timeout: to},
 			{Name: "nq", N: q(tier, 400, 8000), Chunk: 40, Procs: []int{2, 16, 4, 1}, Timeout: to},
 			{Name: "err", N: q(tier, 200, 4000), Chunk: 40, Procs: []int{2, 16, 4, 1}, Timeout: to},
+			{Name: "waiters", N: q(tier, 400, 8000), Chunk: 40, Procs: []int{16, 4, 8}, Timeout: to},
 		}
 	case "C03", "C13":
 		return []Part{{Name: "mixed", N: q(tier, 800, 16000), Chunk: 40, Procs: []int{2, 16, 4, 1}, Timeout: to}}
@@ -60,6 +61,7 @@ func plan(prop, tier string) []Part {
 		return []Part{
 			{Name: "mixed", N: q(tier, 800, 16000), Chunk: 40, Procs: []int{2, 16, 4, 1}, Timeout: to},
 			{Name: "err", N: q(tier, 200, 4000), Chunk: 40, Procs: []int{2, 16, 4, 1}, Timeout: to},
+			{Name: "queue", N: q(tier, 300, 6000), Chunk: 40, Procs: []int{2, 16, 4, 1}, Timeout: to},
 		}
 	case "C05":
 		return []Part{
@@ -137,6 +139,7 @@ func plan(prop, tier string) []Part {
 			{Name: "spin", N: q(tier, 4, 200), Chunk: 1, Timeout: to},
 			{Name: "decor", N: q(tier, 8, 500), Chunk: 1, Timeout: to},
 			{Name: "row", N: q(tier, 16, 2000), Chunk: 1, Timeout: to},
+			{Name: "clip", N: q(tier, 8, 200), Chunk: 1, Timeout: to},
 		}
 	}
 	return nil
